@@ -3,8 +3,8 @@ import collections, glob, os, random
 from vlib import core, corr
 
 AREA = "C14"
-MODULES = ["TinsModel.Props.C14"]
-AUDIT = "Audit/C14.lean"
+MODULES = ["TinsModel.Props.C14", "TinsModel.Props.Limits.C14"]   # + the constants / limits tied to the source (translator/gen_limits.py)
+AUDIT = ["Audit/C14.lean", "Audit/LimitsC14.lean"]
 LEVEL = "proof"
 HARNESS = "c14_match"
 HARNESS_EXTRA = ("-fno-access-control",)      # only for sizeof() of the private header structs in the `layout` op
@@ -23,6 +23,10 @@ MANIFEST = dict(
          "generator coverage bounds what the tie sees.",
     technique="Lean 4 proof (structural induction over the layer stack, refinement of a byte-level spec) + model/impl correspondence",
     design="DESIGN.md §6 C14")
+MANIFEST["note"] += (" Constants and limits of the C++ source that the model restates (translator/gen_limits.py -> Gen/Limits.lean: "
+                     "compiled probe + preprocessed function bodies at named anchors) are tied to the model's numerals by the "
+                     "theorems of lean/TinsModel/Props/Limits/C14.lean (audit: Audit/LimitsC14.lean); tools/LIMITS-INVENTORY.md lists "
+                     "what is tied and what is not.")
 
 
 # ----------------------------------------------------------------------------- request generators
@@ -516,7 +520,12 @@ def spec_distribution(chk, exe_ops, impl):
 
 
 def run(chk):
+    from translator import gen_limits
+    gen_limits.main([])          # Gen/Limits.lean: constants and limits read from the current source
+    chk.trusted.append("translator/gen_limits.py (constants / limits of the source -> Gen/Limits.lean: compiled probe + "
+                       "preprocessed function bodies at named anchors; tied to the model numerals by Props/Limits/C14.lean)")
     problems = chk.prove(MODULES, AUDIT, want_leanchecker=(chk.tier == "thorough"))
+    problems = gen_limits.name_failures(chk, problems, "C14")   # name the tie theorems that fail
     exe, err = core.build_harness(HARNESS, extra=HARNESS_EXTRA)
     if exe is None:
         chk.violation("implementation does not build: " + err[-1500:], ["build-error"], nofail=True)
